@@ -451,6 +451,22 @@ def run_totals_model(spec):
                         row['J_uncolored'] = J0.tolist()
                         row['J_colored'] = J1.tolist()
                     rows.append(row)
+                # the driver's own variables asked for explicitly with the design variables in reversed order: the same
+                # numbers, columns permuted (the coloring, which was computed for the driver's order, must not be misapplied)
+                dvs = ['a.x%d' % j for j in range(len(spec['iscale']))]
+                ofs = ['%s%d' % ('b.z' if spec['chain'] else 'a.y', i) for i in range(len(spec['oref']))]
+                if len(dvs) > 1:
+                    Jp = np.array(p1.compute_totals(of=ofs, wrt=dvs[::-1], return_format='array', driver_scaling=False))
+                    co = np.concatenate([[0], np.cumsum(spec['isz'])]).astype(int)
+                    blocks = [base[False][:, co[j]:co[j + 1]] for j in range(len(dvs))]
+                    J0 = np.hstack(blocks[::-1])
+                    err = float(np.max(np.abs(Jp - J0) / (1. + np.abs(J0)))) if J0.size and Jp.shape == J0.shape else 1.
+                    row = dict(row0, driver_scaling=False, colored=True, permuted_wrt=True, err=err, solves=None, uncolored_solves=None,
+                               subs=False, bidirectional=False)
+                    if not err <= 1e-9:
+                        row['J_uncolored'] = J0.tolist()
+                        row['J_colored'] = Jp.tolist()
+                    rows.append(row)
             except Exception as e:
                 rows.append(dict(row0, driver_scaling=None, raised='%s: %s' % (type(e).__name__, e)))
     return rows
@@ -664,11 +680,14 @@ def _process_models(ctx, specs, mres, only=None):
                 n_tot += 1
                 n_tot_col += bool(row['colored'])
                 n_tot_subs += bool(row['subs'])
-                if row['colored'] and row['solves'] < row['uncolored_solves']:
+                if row.get('permuted_wrt'):
+                    ctx.note_nontrivial(('totals-permuted', mid, row['mode'], row['direct']))
+                elif row['colored'] and row['solves'] < row['uncolored_solves']:
                     ctx.note_nontrivial(('totals', mid, row['mode'], row['direct'], row['driver_scaling']))
                 if not row['err'] <= 1e-9:
                     ctx.violation(sc, row['J_uncolored'], row['J_colored'],
-                                  'colored total derivatives differ from uncolored ones (max rel. diff %.3g)' % row['err'],
+                                  ('colored total derivatives for a permuted wrt list differ from uncolored ones (max rel. diff %.3g)' if row.get('permuted_wrt') else
+                                   'colored total derivatives differ from uncolored ones (max rel. diff %.3g)') % row['err'],
                                   snippet='openmdao: ScipyOptimizeDriver.declare_coloring(direct=%s); setup(mode=%r); '
                                           'compute_totals(driver_scaling=%s) vs the same without declare_coloring; '
                                           './check C03 --replay <this file>'
